@@ -7,6 +7,9 @@
 pub struct DeIter<T> { v: std::collections::VecDeque<T> }
 
 impl<T> DeIter<T> {
+    // Iterator::size_hint: the lower bound never exceeds the real length, the upper bound (if any) is never below it
+    #[verifier::external_body]
+    pub fn size_hint(&self) -> (r: (usize, Option<usize>)) ensures r.0 <= self.rest().len(), r.1 is Some ==> self.rest().len() <= r.1->Some_0 { unimplemented!() }
     pub uninterp spec fn rest(&self) -> Seq<T>;
 
     #[verifier::external_body]
